@@ -42,6 +42,12 @@ reg('C16', 'exhaustive string × position enumeration + Hypothesis token strings
     'Checked: no exception, ranges inside the text, tag-shape/order of scanned tags, match == outward[0], strict nesting of outward entries, nesting of inward entries.',
     'Non-termination would show as a CPU-time watchdog expiry (20 s); absence of violations beyond the enumerated length is sampled, not shown.')
 
+reg('C01', 'exhaustive operator-skeleton enumeration + Hypothesis grammar-directed scripts; differential against a reference interpreter/renderer derived from the same script',
+    'Every operator skeleton (> + ^ ^^, groups nested ≤ 2, optional *2 on every element/group) with ≤ 3 elements (quick) / ≤ 4 elements plus the 5-element nesting-≤-1 space (thorough, ≈ 6.6·10^6 scripts) '
+    'is expanded and compared by exact string equality (format off) and white-space-insensitive equality (format on) with the reference denotation; '
+    'Hypothesis scripts up to ~40 items add structural names, implicit names under every parent kind, ^^^, self-closing marks and text, across 5 self-closing-style/syntax configurations.',
+    'The generator never writes `>` after a group, a text-only item or a self-closed element, and never uses snippet keys as names; beyond the enumerated skeleton size the space is sampled.')
+
 NOT_APPLICABLE = [
 ]
 
